@@ -677,6 +677,13 @@ func LoadLinksForLayout(layout Layout, linkDir string) (map[string]map[string]Me
 		}
 
 		for _, linkPath := range linkFiles {
+			// Only regular files can be link metadata. Anything else that
+			// matches the link name pattern is ignored, reading e.g. from a
+			// named pipe would block the verification.
+			if info, err := os.Stat(linkPath); err != nil || !info.Mode().IsRegular() {
+				continue
+			}
+
 			linkEnv, err := LoadMetadata(linkPath)
 			if err != nil {
 				continue
